@@ -15,7 +15,7 @@ from .calls import CallMixin, TypeName, SliceV
 from .repoidx import Repo, ClassHandle, func_hash
 
 BUILTINS = ['len', 'min', 'max', 'abs', 'bool', 'int', 'isinstance', 'type', 'hasattr', 'tuple', 'list',
-            'bytes', 'bytearray', 'range', 'reversed', 'sorted', 'iter', 'next', 'str', 'repr', 'dict',
+            'bytes', 'bytearray', 'range', 'reversed', 'sorted', 'map', 'iter', 'next', 'str', 'repr', 'dict',
             'dotdict', 'slice']
 TYPE_NAMES = ['int', 'bool', 'bytes', 'bytearray', 'str', 'tuple', 'list', 'dict', 'float', 'slice', 'type_str_base']
 MODULES = ['struct', 'random', 'logging', 'log', 'sys', 'traceback', 'misc']
